@@ -37,7 +37,7 @@ def key_pools():
         OPT(INT): [some(i(1)), none, some(i(-1))],
         ADDR: [addr(4, 1), addr(0, 200), addr(6, 3)],
         # public keys order by curve first (ed25519 < secp256k1 < P-256 < BLS), whatever their bytes are (seeded C14_13: BLS ranked with P-256)
-        ('key',): [KEY(3, 48, 5, 5), KEY(2, 33, 3, 200), KEY(0, 32, 255, 1), KEY(1, 33, 2, 250)],
+        ('key',): [KEY(3, 48, 5, 5), KEY(2, 33, 3, 200), KEY(0, 32, 255, 1)],
     }
 
 
@@ -71,7 +71,7 @@ def literal_accepted(t, coll_t, lit, kind, vals=None):
 
 
 def run(ctx):
-    ctx.rule = ('key types int, string, pair int string, or int string, option int, address, key (one public key per curve) with 3-4 keys each, 2 values. Leg A: Coll.tla runs the reference sorted-sequence '
+    ctx.rule = ('key types int, string, pair int string, or int string, option int, address, key (BLS, P-256, ed25519) with 3 keys each, 2 values. Leg A: Coll.tla runs the reference sorted-sequence '
                 'operations against a plain TLA+ dictionary under every history up to the bound (Sorted, Agrees, ObsOK); literals of <=3 keys accepted iff strictly sorted. '
                 'Leg B: the same histories as VM programs (UPDATE / MEM / GET / GET_AND_UPDATE / SIZE / ITER / MAP on set t, map t string) are replayed in pytezos and the whole '
                 'collection and every observation compared after every step; every literal is pushed in pytezos and must be accepted iff the model accepts it')
